@@ -1,6 +1,18 @@
 // Scheduled scenarios on the real mailbox.h / async.h under the cooperative scheduler (C13, C12).
 #include "common.h"
 #include "coop.h"
+#include <mutex>
+#include <set>
+#include <vector>
+#include <memory>
+#include <functional>
+#include <atomic>
+#include <condition_variable>
+#include <stdexcept>
+// the scenarios need the identity of a promise's core (to name it in the access log); harness only
+#define private public
+#include <pistache/async.h>
+#undef private
 #include <pistache/mailbox.h>
 #include <pistache/os.h>
 #include <poll.h>
@@ -82,9 +94,125 @@ static std::string scenarioQueue(const std::vector<std::string>& w)
     return "popped=" + (ps.empty() ? "-" : ps) + " left=" + std::to_string(left) + " wake=" + (wake ? "1" : "0") + " labels=" + labels;
 }
 
+// ---------------------------------------------------------------------------------------------------
+// C12: settle on thread 0 against then / then-on-derived on thread 1
+// p <target P|D> <outcome res|rej> <g pre|race|none> <schedule>
+namespace {
+struct Exc { int code; };
+struct AccessLog {
+    std::mutex m;
+    std::map<const void*, std::string> coreName;           // core address -> P, D, E (filled in at the end)
+    std::map<int, std::set<const void*>> held;             // thread -> mutexes held
+    struct Acc { const void* obj; std::string field; bool write, locked; };
+    std::vector<Acc> perThread[2];
+    static AccessLog*& inst() { static AccessLog* a = nullptr; return a; }
+    static void onLock(const void* mtx, int acquired)
+    {
+        AccessLog* a = inst(); int t = coop::Sched::myId; if (!a || t < 0) return;
+        std::lock_guard<std::mutex> g(a->m);
+        if (acquired) a->held[t].insert(mtx); else a->held[t].erase(mtx);
+    }
+    static void onAccess(const void* obj, const char* field, int write)
+    {
+        AccessLog* a = inst(); int t = coop::Sched::myId; if (!a || t < 0 || t > 1) return;
+        std::lock_guard<std::mutex> g(a->m);
+        auto core = static_cast<const Async::Private::Core*>(obj);
+        bool locked = a->held[t].count(&core->mtx) > 0;
+        a->perThread[t].push_back(Acc { obj, field, write != 0, locked });
+    }
+};
+}
+
+static std::string scenarioPromise(const std::vector<std::string>& w)
+{
+    if (w.size() != 5) return "bad-op";
+    const std::string target = w[1], outcome = w[2], gwho = w[3];
+    if ((target != "P" && target != "D") || (outcome != "res" && outcome != "rej") || (gwho != "pre" && gwho != "race" && gwho != "none")) return "bad-op";
+    if ((target == "D") == (gwho == "none")) return "bad-op";
+    auto sched = parseSched(w[4]);
+
+    AccessLog log; AccessLog::inst() = &log;
+    Pistache::Verif::lockHook = &AccessLog::onLock;
+    Pistache::Verif::accessHook = &AccessLog::onAccess;
+
+    Async::Resolver resolver(nullptr); Async::Rejection rejection(nullptr);
+    Async::Promise<int> P([&](Async::Resolver& r, Async::Rejection& j) { resolver = std::move(r); rejection = std::move(j); });
+    log.coreName[P.core_.get()] = "P";
+    int gcount = 0, hcount = 0, hval = -1, hrejcount = 0, hrejcode = -1;
+    auto g = [&](int v) { ++gcount; return v + 1; };
+    auto h = [&](int v) { ++hcount; hval = v; };
+    auto hrej = [&](std::exception_ptr e) {
+        ++hrejcount;
+        try { if (e) std::rethrow_exception(e); else hrejcode = -2; } catch (const Exc& x) { hrejcode = x.code; } catch (...) { hrejcode = -3; }
+    };
+    std::unique_ptr<Async::Promise<int>> D;
+    std::unique_ptr<Async::Promise<void>> E;
+    auto attachG = [&] {
+        D.reset(new Async::Promise<int>(P.then(g, Async::Throw)));
+    };
+    // the derived core exists as soon as then() has allocated it; name it when it first shows up in the log:
+    // then() creates the new promise before taking the lock, so register the name from the continuation list
+    auto nameDerived = [&] { if (D) log.coreName[D->core_.get()] = "D"; };
+    if (gwho == "pre") { attachG(); nameDerived(); }
+
+    std::string excA, excB;
+    coop::Sched S; coop::install(&S);
+    S.spawn([&] {
+        try { if (outcome == "res") resolver(7); else rejection(Exc { 9 }); }
+        catch (const std::exception& e) { excA = e.what(); }
+    });
+    S.spawn([&] {
+        try {
+            if (gwho == "race") attachG();
+            Async::Promise<int>& X = target == "P" ? P : *D;
+            E.reset(new Async::Promise<void>(X.then(h, hrej)));
+        } catch (const std::exception& e) { excB = e.what(); }
+    });
+    // names of cores created inside the race: D is the chain of the first request of P, E the chain of the
+    // request carrying h.  Cores are named lazily at access time through this resolver:
+    for (int t : sched) { if (t == 0 || t == 1) S.runOne(t); }
+    bool dead = false; int stuck = 0;
+    for (int guard = 0; guard < 100000; ++guard) {
+        bool f0 = S.finished(0), f1 = S.finished(1);
+        if (f0 && f1) break;
+        std::string a0 = f0 ? "done" : S.runOne(0);
+        std::string a1 = S.finished(1) ? "done" : S.runOne(1);
+        bool b0 = (a0 == "blocked" || a0 == "done"), b1 = (a1 == "blocked" || a1 == "done");
+        if (b0 && b1 && !(S.finished(0) && S.finished(1))) { if (++stuck > 50) { dead = true; break; } } else stuck = 0;
+    }
+    coop::install(nullptr);
+    if (dead) { std::_Exit(98); }     // the threads cannot be joined: report as a hang
+    S.joinAll();
+    Pistache::Verif::lockHook = nullptr; Pistache::Verif::accessHook = nullptr; AccessLog::inst() = nullptr;
+
+    nameDerived(); if (E) log.coreName[E->core_.get()] = "E";
+    std::string out = "h=" + std::to_string(hcount) + ":" + std::to_string(hval) + " hrej=" + std::to_string(hrejcount) + ":" + std::to_string(hrejcode)
+        + " g=" + std::to_string(gcount) + " exc=" + (excA.empty() ? "-" : "A") + (excB.empty() ? "-" : "B");
+    // per-thread event traces: yield labels and access records merged in program order
+    out += " trace=";
+    for (int t = 0; t < 2; ++t) {
+        if (t) out += "|";
+        auto& labs = S.threads[t]->labels;
+        for (size_t i = 0; i < labs.size(); ++i) { if (i) out += ","; out += labs[i]; }
+    }
+    out += " acc=";
+    for (int t = 0; t < 2; ++t) {
+        if (t) out += "|";
+        for (size_t i = 0; i < log.perThread[t].size(); ++i) {
+            auto& a = log.perThread[t][i];
+            auto it = log.coreName.find(a.obj);
+            if (i) out += ",";
+            out += (it == log.coreName.end() ? std::string("?") : it->second) + "." + a.field + (a.write ? ".w" : ".r") + (a.locked ? "+" : "-");
+        }
+        if (log.perThread[t].empty()) out += "-";
+    }
+    return out;
+}
+
 int main()
 {
     std::map<std::string, Op> ops;
     ops["q"] = scenarioQueue;
+    ops["p"] = scenarioPromise;
     return runLoop(ops, 20);
 }
